@@ -268,7 +268,7 @@ fn maskcheck_cases(tier: &str, seed: u64, out: &mut Out) {
         let st = if i % 5 == 4 { BIT } else { *rng.pick(&int_sts) };
         let p = ring_program(&mut rng, st);
         let owners = owners_no_shared(p.input_types.len(), &mut rng);
-        let outs = all_outs[i % 8].clone();
+        let outs = all_outs[i % all_outs.len()].clone();
         let (mname, mode) = modes[i % 3].clone();
         let c = match compile(&p, &owners, &outs, mode) { Outcome::Ok(c) => c, _ => { out.stat("maskcheck-compile:notOk"); continue; } };
         out.stat("maskcheck-compile:Ok");
